@@ -389,6 +389,8 @@ def _compare_logpdf(env, rw, lpA, lpB, const, extra, xB, offB):
     if tA is None or tB is None or tC is None:
         env.eq("logpdf", lpB, env.num(lpA) + const, key=f"{rw}:logpdf")
         return
+    env.replay_as = "logpdf"
+    env.sym_only = True
     pool = list(tB)
     for fname, args in tA + tC:
         hit = [g for g in pool if g[0] == fname and g[1][0].eq(args[0])]
@@ -400,5 +402,7 @@ def _compare_logpdf(env, rw, lpA, lpB, const, extra, xB, offB):
             env.eq(f"term[{fname}({args[0]})].arg{j + 1}", SV(ga), SV(wa), key=f"{rw}:logpdf", validate=False)
     if pool:
         env.fail("extra-terms", f"{len(pool)} likelihood terms without counterpart, e.g. {pool[0][0]}({pool[0][1][0]})", key=f"{rw}:logpdf")
-    else:
+    env.replay_as = None
+    env.sym_only = False
+    if not pool:
         env.holds("logpdf", True, key=f"{rw}:logpdf")
